@@ -88,6 +88,49 @@ claim(
     "DESIGN.md §5 C20",
 )
 
+claim(
+    "C05",
+    "bounded symbolic strings (QF_BV, z3): AST interpretation of the real escaping kernels composed with z3 lexer models of the consuming literal contexts (validated against compile()/tokenize/tomllib); replay of payloads through the real generator",
+    "For every payload of length <= K over Sigma the escaped text stays one literal of its context (Python double-quoted string, raw/plain docstring, TOML basic string, repr-based default) and decodes to the original, modulo the recorded known findings whose character classes are assumed away; every solver witness is replayed on the real kernel + real consumer. The slot x payload sweep through the whole generator is a concrete replay oracle.",
+    "K = 4 (quick) / 6 (thorough); alphabet Sigma; the call site of the TOML description is isolated as a one-line function whose text is checked against Project.__init__; slots are those of the canary document (45); custom templates outside the claim.",
+    "DESIGN.md §5 C05",
+)
+claim(
+    "C11",
+    "CrossHair symbolic execution (z3) of regenerated from_dict and _get_kwargs with a recursive run-time conformance check against typing.get_type_hints",
+    "For every skeleton model and every symbolic instance inside the bounds each decoded attribute is an instance of its annotation (forward references resolved against the models package); every value admitted by a parameter/body annotation that the schema-directed builder produces is accepted by the encoder. 'Passes mypy' is NOT decided.",
+    "mypy cleanliness is outside the technique (external static analyser); document shape bounded by the skeleton family.",
+    "DESIGN.md §5 C11",
+)
+claim(
+    "C13",
+    "CrossHair (z3) on every real convert_value with a default of symbolic JSON type; bounded symbolic strings (QF_BV, z3) for string defaults through repr/escape models; CrossHair on regenerated default instances",
+    "Every (kind, JSON value) inside the pools is either rejected with a PropertyError or emitted as source that evaluates to the equivalent typed value; allOf re-conversion uses the merged type; an instance built without optional arguments encodes exactly the declared defaults. Known findings (non-finite floats, double quotes in string defaults) are assumed away by class.",
+    "float()/isoparse()/UUID() run concretely on pooled inputs; string defaults symbolic up to length 3 (quick) / 5 (thorough).",
+    "DESIGN.md §5 C13",
+)
+claim(
+    "C14",
+    "CrossHair symbolic execution (z3) of regenerated enum/const decoding with candidates from member+near-miss pools, and of the real enum builders with pooled value lists",
+    "For every enum/const property of the enum skeleton under both enum styles: decoding succeeds iff the candidate is listed (same JSON type), re-encodes to itself; a null member makes the property nullable; the builders never merge two listed values silently (modulo known finding C14-F1) and store every value verbatim.",
+    "Candidates and enum value lists come from pools; document shape bounded by the enum skeleton.",
+    "DESIGN.md §5 C14",
+)
+claim(
+    "C15",
+    "CrossHair symbolic execution (z3) of the real merge_properties over all 16x16 ordered kind pairs with symbolic required/default flags; regenerated allOf models",
+    "For every ordered pair of the 16 representative kinds and every flag combination merge(a,b) and merge(b,a) are both errors or both the documented narrowest kind with required = a or b; the later default is re-converted against the merged type; composed skeleton models (chains, two parents, parent declared after child) round-trip for all instances.",
+    "16 representative kinds; model/union members are outside merge_properties; declaration orders 6 of 120 in the quick tier.",
+    "DESIGN.md §5 C15",
+)
+claim(
+    "C17",
+    "CrossHair symbolic execution (z3) of the in-code normalisations (Schema.handle_nullable, enum-with-null rewrite, single-reference wrapper passthrough) comparing the resulting property trees",
+    "For every pooled base schema and required flag the 3.0 `nullable` spelling, the 3.1 type list and the null union member build the same property description; enum-with-null equals the explicit union under both enum styles; single-element allOf/oneOf/anyOf wrappers share the referenced class. JSON-vs-YAML and path-vs-URL are NOT solver-decided (listed in level_note).",
+    "JSON-vs-YAML byte identity is only compared by the concrete replay oracle; file-vs-URL is not covered at all (no network, httpx); union member order is not part of any rewrite.",
+    "DESIGN.md §5 C17",
+)
+
 ALL = [f"C{i:02d}" for i in range(1, 21)]
 
 
